@@ -72,7 +72,7 @@ def jobs(tier, seed):
         add(solver, test, 2, 2, 2, "9/10", pat="half")
         add(solver, test, 3, 2, 1, "9/10", bs=2, cost=3)
         if tier == "thorough":
-            if solver == "vi":   # (pi / savi with symbolic gamma and two events: single jobs ran > 15 min, outside)
+            if (solver, test) == ("vi", "span"):   # (max_diff, pi, savi with symbolic gamma and two events: single jobs ran 30-70+ min, outside)
                 add(solver, test, 2, 2, 2, "sym", pat="skew")
             add(solver, test, 2, 2, 2, "1/2", pat="zero")
             add(solver, test, 3, 2, 1, "1/2", bs=3, cost=3)
